@@ -200,6 +200,10 @@ def update_tags_case(rng):
 
 def run(chk, driver, tier):
     rng = chk.rng
+    # the COMPOSED model of the whole command (Model/Update.lean, theorems Props/Update.lean) against the real CLI: exit code, event trace and
+    # every configured file afterwards, on generated projects x the flag/config lattice x tag and status listings x faults x failure positions
+    import props.updfull as updfull
+    updfull.run(chk, driver, 1500 if tier == "thorough" else 40)
     n = 12000 if tier == "thorough" else 700
     chk.extra["rule"] = ("uniquely readable grammar patterns x states x 2^7 flag sets (plus an invalid --tag) x date offsets x --set-version targets derived from the current version "
                          "(+1/-1 on each field, every tag incl. downgrades, equal, malformed, PEP 440-equal respellings); legacy composites with trailing junk; update dry/real on projects; "
